@@ -362,6 +362,13 @@ Definition reason_statement (r : reason) : Prop :=
       forall (h : K -> V -> option I -> I) (st : list (cell K I)) (l1 l2 : list (K * V)),
       NoDup (map fst l1) -> Permutation l1 l2 ->
       state_equiv K I keq (run_loop K V I keq [SUpdateAtKey 0 h] st l1) (run_loop K V I keq [SUpdateAtKey 0 h] st l2)
+  | RPureCalleeReviewed =>
+      (* with the callee a function of (k, v), the body is made of accepted statements: the loop-body theorem *)
+      forall (K V I : Type) (keq : K -> K -> bool) (ieq : I -> I -> bool),
+      (forall a b, keq a b = true <-> a = b) -> (forall a b, ieq a b = true -> a = b) ->
+      forall (body : list (stmt K V I)) (st : list (cell K I)) (l1 l2 : list (K * V)),
+      body_safe K V I keq ieq body = true -> NoDup (map fst l1) -> Permutation l1 l2 ->
+      state_equiv K I keq (run_loop K V I keq body st l1) (run_loop K V I keq body st l2)
   end.
 
 Theorem reasons_sound : forall r, reason_statement r.
@@ -394,6 +401,8 @@ Proof.
       apply (build_map_perm_invariant str_eqb str_eqb_spec (fun k => k) tx l1 l2); try assumption. intros a b _ _ E. exact E.
   - (* RKeyPartitioned *) intros K V I keq ieq Hk Hi h st l1 l2 Hnd Hp.
     apply (safe_body_perm_invariant K V I keq ieq Hk Hi); try assumption. reflexivity.
+  - (* RPureCalleeReviewed *) intros K V I keq ieq Hk Hi body st l1 l2 Hb Hnd Hp.
+    apply (safe_body_perm_invariant K V I keq ieq Hk Hi); assumption.
 Qed.
 
 (* every entry of the committed table carries a reason whose statement is proved *)
